@@ -6,5 +6,6 @@ cd /verif/harness
 export GOFLAGS=-mod=mod GOPROXY=off GOSUMDB=off GOTOOLCHAIN=local
 go vet ./ref/ >/dev/null 2>&1 || true
 go test -count=1 -timeout 300s ./ref/ ./fw/
+go test -tags verif -count=1 -timeout 300s -run TestTcpPeerSendQueue ./props/
 go build -tags verif -o /dev/null ./cmd/worker
 echo setup-ok
